@@ -50,6 +50,7 @@ var errBudget = fmt.Errorf("reference budget exceeded")
 // Stats are measurements of one run used for the non-triviality rules.
 type Stats struct {
 	Steps               int
+	ClauseTries         int // clauses tried by calls, clause/2, retract/1 (the real engine pays a few steps for each)
 	Backtracks          int // backtracks into a user predicate's remaining clauses
 	CutsEffective       int // cuts that removed at least one choice point
 	CutLocal            int // cut-opaque constructs (call/N, \+, findall, catch, ->) entered
@@ -777,6 +778,7 @@ func (r *run) callUser(name string, args []Term, f *frame) (bool, error) {
 	try = func(i int) *frame {
 		for ; i < len(snapshot); i++ {
 			c := snapshot[i]
+			m.Stats.ClauseTries++
 			mark := len(m.trail)
 			ren := map[*Var]Term{}
 			h := m.copyTerm(c.head, ren)
@@ -838,6 +840,7 @@ func (r *run) clause(head, body Term) (bool, error) {
 	for _, c := range snapshot {
 		c := c
 		alts = append(alts, func() *frame {
+			m.Stats.ClauseTries++
 			ren := map[*Var]Term{}
 			if m.unify(head, m.copyTerm(c.head, ren)) && m.unify(body, m.copyTerm(c.raw, ren)) {
 				return wrap(rest)
@@ -879,6 +882,7 @@ func (r *run) retract(t Term) (bool, error) {
 	for _, c := range snapshot {
 		c := c
 		alts = append(alts, func() *frame {
+			m.Stats.ClauseTries++
 			remaining--
 			if remaining == 0 && !closed {
 				closed = true
